@@ -30,6 +30,28 @@ def with_payload(target, ncells=40):
     return root
 
 
+def pruned_vs_full(rng, n=8):
+    """an ordinary parent over a Merkle update whose old side is a tree with one subtree pruned and whose new side is the same tree in full: every cell
+    on the path to the pruned subtree exists twice - once with level 1, once with level 0 - with the same level-0 hash and different representation hashes"""
+    t = gen.rand_dag(rng, n, max_bits=24, fanin=0.1)
+    cands = [c for c in gen.all_cells(t) if c.hash != t.hash]
+    if not cands:
+        t = rc.RC('101', (rc.RC('1', (rc.RC('0011'),)), rc.RC('0')))
+        cands = [c for c in gen.all_cells(t) if c.hash != t.hash]
+    victim = rng.choice(cands)
+    memo = {}
+
+    def rebuild(c):
+        if c.hash in memo:
+            return memo[c.hash]
+        r = rc.make_pruned(c, 1) if c.hash == victim.hash else (rc.RC(c.bits, [rebuild(x) for x in c.refs]) if c.refs else c)
+        memo[c.hash] = r
+        return r
+    tp = rebuild(t)
+    assert tp.get_hash(0) == t.hash and tp.hash != t.hash
+    return rc.RC('1', (rc.make_merkle_update(tp, t),))
+
+
 def classes(rng, tier, shard=0, nshards=1, bulk=None):
     """yield (class name, RC root).  Boundary classes are listed by name in the evidence."""
     quick = tier == 'quick'
@@ -47,6 +69,10 @@ def classes(rng, tier, shard=0, nshards=1, bulk=None):
     add('diamond-15', lambda: gen.diamond(15))
     add('kary-4x3', lambda: gen.kary(4, 3))
     add('same-child-x4', lambda: rc.RC('1', (rc.RC('0'),) * 4))
+    for i in range(2 if quick else 12):
+        add(f'pruned-vs-full-{i}', lambda: pruned_vs_full(rng, rng.choice([3, 8, 20])))
+    # 2-byte header fields with the top bit set: total cell data between 2^15 and 2^16 bytes
+    add('payload-33000', lambda: with_payload(33000, 300))
     add('chain-300', lambda: gen.chain(300))
     for n in (255, 256, 257):
         add(f'cells-{n}', lambda n=n: gen.wide(n))
